@@ -12,6 +12,7 @@ import logging
 import warnings
 
 import numpy as np
+import scipy.linalg
 
 from checks.c16_space import BASES, HERMITIAN_SPECTRA, STRUCTS, Space, general, hermitian, start_vectors
 
@@ -47,59 +48,78 @@ def sort_key(which):
 
 
 def expm_apply(M, delta, v):
-    lam, U = np.linalg.eig(M)
-    return U @ (np.exp(delta * lam) * np.linalg.solve(U, v))
+    return scipy.linalg.expm(delta * M) @ v
 
 
-@functools.lru_cache(maxsize=256)
-def context(struct, form, d, fam, spec, bas, seed, start):
-    """Space, sector matrix M, flat start vector for one (operator, start vector) pair."""
-    sp = Space(struct, d)
-    if fam == 'herm':
-        M, lam, Q = hermitian(spec, bas, d, seed)
-    else:
-        M = general(spec, d, seed)
-        lam, Q = np.linalg.eig(M)
-        order = np.argsort(lam.real)
-        lam, Q = lam[order], Q[:, order]
-    v = dict(start_vectors(d, lam, Q, seed))[start]
-    if np.iscomplexobj(v) and np.abs(v.imag).max() == 0:
-        v = v.real
-    return sp, M, lam, Q, v
+class Ctx:
+    """One (operator, start vector) pair: space, sector matrix M, flat start vector v, and caches of everything that
+    does not depend on the solver options (npc operators that the solvers do not modify, dense references)."""
+
+    def __init__(self, struct, form, d, fam, spec, bas, seed, start):
+        self.sp, self.form, self.seed = Space(struct, d), form, seed
+        if fam == 'herm':
+            self.M, lam, self.Q = hermitian(spec, bas, d, seed)
+        else:
+            self.M = general(spec, d, seed)
+            lam, Q = np.linalg.eig(self.M)
+            self.Q = Q[:, np.argsort(lam.real)]
+        v = dict(start_vectors(d, lam, self.Q, seed))[start]
+        self.v = v.real if np.iscomplexobj(v) and np.abs(v.imag).max() == 0 else v
+        self._psi0 = self.sp.vec(self.v)
+        self._ops, self._refs = {}, {}
+
+    def psi0(self):
+        return self._psi0.copy()
+
+    def base_op(self, name, M):
+        if name not in self._ops:
+            self._ops[name] = self.sp.operator(M, self.form)
+        return self._ops[name]
+
+    def operator(self, wrap):
+        """A fresh outermost operator object (E_shift may re-wire it) and E_shift -> dense matrix the solver is documented to see."""
+        from tenpy.linalg import sparse
+        M, d = self.M, len(self.M)
+        one = np.eye(d)
+        if wrap is None:
+            return self.base_op('M', M), lambda s: M
+        if wrap == 'shift':  # (M - 0.7) + 0.7
+            return sparse.ShiftNpcLinearOperator(self.base_op('M-0.7', M - 0.7 * one), 0.7), lambda s: M
+        if wrap == 'sum':
+            D = np.diag(0.1 * np.arange(d))
+            return sparse.SumNpcLinearOperator(self.base_op('M/3+D', M / 3 + D), self.base_op('2M/3-D', 2 * M / 3 - D)), lambda s: M
+        rng = np.random.default_rng([self.seed, d, 91])
+        g = [rng.standard_normal(d) + (1j * rng.standard_normal(d) if np.iscomplexobj(self.Q) else 0) for _ in range(2)]
+        Q = self.Q
+        vecs = {'none': [], 'gs': [Q[:, 0]], 'gs+1': [Q[:, 0], Q[:, min(1, d - 1)]], 'generic': [g[0]],
+                'nonorth2': [1.5 * g[0], g[0] + 0.7 * g[1]], 'dep2': [g[0], 2.0 * g[0]]}[wrap[len('ortho:'):]]
+        P = one
+        if vecs:
+            U, S, _ = np.linalg.svd(np.array(vecs).T, full_matrices=False)
+            U = U[:, S > 1e-10]
+            P = one - U @ U.conj().T
+        op = sparse.OrthogonalNpcLinearOperator(self.base_op('M', M), [self.sp.vec(o) for o in vecs])
+        # documented: H -> P H P; E_shift shifts the inner operator, the orthogonal vectors keep eigenvalue 0
+        return op, lambda s: P @ (M + (s or 0.0) * one) @ P - (s or 0.0) * one
+
+    def reference(self, Mref, key):
+        """Dense Ritz data of Mref for the start vector: Krylov ONB V, betas, and for every N <= dim the Ritz pairs."""
+        if key not in self._refs:
+            V, betas = krylov_ref(Mref, self.v, len(self.v))
+            self._refs[key] = V, betas, 1.0 + np.abs(Mref).max()
+        return self._refs[key]
 
 
-def start_names(d):
-    return [n for n, _ in start_vectors(d, np.zeros(d), np.eye(d), 0)]
+context = functools.lru_cache(maxsize=64)(Ctx)
 
 
-def ortho_vectors(kind, d, Q, seed):
-    rng = np.random.default_rng([seed, d, 91])
-    g = [rng.standard_normal(d) + (1j * rng.standard_normal(d) if np.iscomplexobj(Q) else 0) for _ in range(2)]
-    return {'none': [], 'gs': [Q[:, 0]], 'gs+1': [Q[:, 0], Q[:, min(1, d - 1)]], 'generic': [g[0]],
-            'nonorth2': [1.5 * g[0], g[0] + 0.7 * g[1]], 'dep2': [g[0], 2.0 * g[0]]}[kind]
+def ctx_of(case):
+    return context(*[case[k] for k in ('struct', 'form', 'd', 'fam', 'spec', 'bas', 'seed', 'start')])
 
 
-def build_operator(sp, M, Q, form, wrap, seed):
-    """(operator object, function E_shift -> dense matrix the solver is documented to see)."""
-    from tenpy.linalg import sparse
-    d = len(M)
-    if wrap is None:
-        return sp.operator(M, form), lambda s: M
-    if wrap == 'shift':  # (M - 0.7) + 0.7
-        return sparse.ShiftNpcLinearOperator(sp.operator(M - 0.7 * np.eye(d), form), 0.7), lambda s: M
-    if wrap == 'sum':
-        D = np.diag(0.1 * np.arange(d))
-        return sparse.SumNpcLinearOperator(sp.operator(M / 3 + D, form), sp.operator(2 * M / 3 - D, form)), lambda s: M
-    assert wrap.startswith('ortho:')
-    vecs = ortho_vectors(wrap[6:], d, Q, seed)
-    P = np.eye(d)
-    if vecs:
-        U, S, _ = np.linalg.svd(np.array(vecs).T, full_matrices=False)
-        U = U[:, S > 1e-10]
-        P = P - U @ U.conj().T
-    op = sparse.OrthogonalNpcLinearOperator(sp.operator(M, form), [sp.vec(o) for o in vecs])
-    # documented: H -> P H P; with E_shift the inner operator is shifted, the orthogonal vectors keep eigenvalue 0
-    return op, lambda s: P @ (M + (s or 0.0) * np.eye(d)) @ P - (s or 0.0) * np.eye(d)
+def start_names(d, tier='thorough'):
+    names = [n for n, _ in start_vectors(d, np.zeros(d), np.eye(d), 0)]
+    return [n for n in names if tier == 'thorough' or n in ('e0', 'e%d' % (d - 1)) or not n[1:].isdigit()]
 
 
 class Checker:
@@ -147,19 +167,19 @@ def observe(sp, psi, psi0):
 
 def case_gs(case):
     from tenpy.linalg.krylov_based import LanczosGroundState
-    sp, M, lam, Q, v = context(*[case[k] for k in ('struct', 'form', 'd', 'fam', 'spec', 'bas', 'seed', 'start')])
-    opt = dict(case['opt'])
-    op, ref_of = build_operator(sp, M, Q, case['form'], case.get('wrap'), case['seed'])
+    ctx = ctx_of(case)
+    sp, v, opt = ctx.sp, ctx.v, dict(case['opt'])
+    op, ref_of = ctx.operator(case.get('wrap'))
+    shift_matters = (case.get('wrap') or '').startswith('ortho') and opt.get('E_shift')
     Mref = ref_of(opt.get('E_shift'))
-    scale = 1.0 + np.abs(Mref).max()
-    V, betas = krylov_ref(Mref, v, len(v))
+    V, betas, scale = ctx.reference(Mref, (case.get('wrap'), opt.get('E_shift') if shift_matters else None))
     dK = V.shape[1]
     lam_min = np.linalg.eigvalsh(Mref)[0]
     thK = np.linalg.eigvalsh(V.conj().T @ Mref @ V)[0]
     out = []
     for run in range(case.get('runs', 1)):
         chk = Checker()
-        psi0 = sp.vec(v)
+        psi0 = ctx.psi0()
         E0, psi, N = LanczosGroundState(op, psi0, dict(opt)).run()
         chk(np.array_equal(sp.flat(psi0)[0], v), 'start-vector-modified')
         p, bad = observe(sp, psi, psi0)
@@ -172,7 +192,7 @@ def case_gs(case):
                 chk(abs(E0 - thK) <= 2e-6 * scale, 'not-ground-energy-at-full-krylov-dimension', 'E0=%.12g, smallest eigenvalue reachable from psi0=%.12g' % (E0, thK))
             resid = np.linalg.norm(Mref @ p - E0 * p)
             stop_rule(chk, N, betas, dK, opt, lambda: resid <= 1e-6 * scale)
-            if 1 <= N <= dK:
+            if 1 <= N <= dK and not case.get('large'):  # (large: finite-precision Lanczos drifts from the exact Krylov basis)
                 th, y = np.linalg.eigh(V[:, :N].conj().T @ Mref @ V[:, :N])
                 chk(abs(E0 - th[0]) <= 1e-8 * scale, 'not-ritz-value', 'N=%d E0=%.12g Ritz value=%.12g' % (N, E0, th[0]))
                 if N == 1 or th[1] - th[0] > 1e-3:
@@ -182,18 +202,17 @@ def case_gs(case):
     return out
 
 
-def gs_options(d, tier):
-    for N_min, N_max, reortho in itertools.product((2, 3), sorted({2, 3, d, d + 3}), (False, True)):
-        for cutoff in (None, 0.3):
-            for N_cache, E_shift in itertools.product(sorted({2, 3, max(2, N_max)}, reverse=True), (None, -5.0, 5.0)):
-                if tier == 'quick' and (cutoff and (E_shift or N_cache == 3) or (N_cache == 3 and E_shift == 5.0) or (N_cache == 2 and E_shift == -5.0)):
-                    continue
-                opt = dict(N_min=N_min, N_max=N_max, reortho=reortho, N_cache=N_cache)
-                if cutoff:
-                    opt['cutoff'] = cutoff
-                if E_shift:
-                    opt['E_shift'] = E_shift
-                yield opt
+def gs_options(d, tier, wrapped):
+    """Option lattice N_min x N_max x reortho x cutoff x N_cache x E_shift (largest N_cache first); quick tier: N_min=3
+    and cutoff=0.3 only with N_cache in {2, N_max} and no shift, and 7 of the 9 (N_cache, E_shift) pairs."""
+    for N_min, N_max, reortho, cutoff in itertools.product((2, 3), sorted({2, 3, d, d + 3}), (False, True), (None, 0.3)):
+        for N_cache, E_shift in itertools.product(sorted({2, 3, max(2, N_max)}, reverse=True), (None, -5.0, 5.0)):
+            if tier == 'quick' and ((cutoff or N_min == 3) and (wrapped or E_shift or N_cache == 3) or (N_cache, E_shift) in ((3, 5.0), (2, -5.0))):
+                continue
+            opt = dict(N_min=N_min, N_max=N_max, reortho=reortho, N_cache=N_cache)
+            opt.update(dict(cutoff=cutoff) if cutoff else {})
+            opt.update(dict(E_shift=E_shift) if E_shift else {})
+            yield opt
 
 
 def tags(case, cache=True):
@@ -211,17 +230,15 @@ def describe(failed):
 def run_gs(unit):
     _, struct, form, d, spec, wrap, tier, seed = unit
     res = Result()
+    if d > 12:
+        return run_gs_large(unit, res)
     bases = BASES if wrap is None or tier == 'thorough' else ('rot', 'urot')
-    starts = start_names(d) if wrap is None else ['generic', 'mix0+last', 'e0']
+    starts = start_names(d, tier) if wrap is None else [s for s in ('generic', 'mix0+last', 'e0') if s in start_names(d)]
     for bas, start in itertools.product(bases, starts):
-        if start not in start_names(d):
-            continue
         base = dict(kind='gs', struct=struct, form=form, d=d, fam='herm', spec=spec, bas=bas, seed=seed, start=start, wrap=wrap,
                     runs=1 if wrap is None else 2)
         full = {}
-        for opt in gs_options(d, tier):
-            if wrap is not None and tier == 'quick' and (opt['N_min'] == 3 or 'cutoff' in opt):
-                continue
+        for opt in gs_options(d, tier, wrap is not None):
             case = dict(base, opt=opt)
             runs = res.execute(case, case_gs)
             if runs is None:
@@ -251,21 +268,44 @@ def run_gs(unit):
     return res.done()
 
 
+def run_gs_large(unit, res):
+    """Dimensions up to 60 (N_max below and above the dimension): everything except the comparison with exact Ritz data."""
+    _, struct, form, d, spec, wrap, tier, seed = unit
+    for bas, N_max, reortho, E_shift in itertools.product(('rot', 'urot'), (20, d + 3), (False, True), (None, -5.0)):
+        base = dict(kind='gs', struct=struct, form=form, d=d, fam='herm', spec=spec, bas=bas, seed=seed, start='generic', wrap=wrap, large=True)
+        full = None
+        for N_cache in (N_max, 2, 7):
+            opt = dict(N_min=2, N_max=N_max, reortho=reortho, N_cache=N_cache)
+            opt.update(dict(E_shift=E_shift) if E_shift else {})
+            case = dict(base, opt=opt)
+            runs = res.execute(case, case_gs)
+            if runs is None:
+                continue
+            res.nontrivial += 1
+            res.outcomes.add('large:N%s' % ('<' if runs[0]['N'] < N_max else '='))
+            r, full = runs[0], full or runs[0]
+            if r['failed']:
+                res.bad('LanczosGroundState:%s:large:%s' % (r['failed'][0][0], tags(case)), describe(r['failed']), case)
+            elif not reortho and full['psi'] is not None and (r['N'] != full['N'] or abs(r['E0'] - full['E0']) > 1e-11 * d or np.linalg.norm(r['psi'] - full['psi']) > 1e-9):
+                res.bad('LanczosGroundState:depends-on-N_cache:large:%s' % tags(case), 'N_cache=%d: E0=%.14g N=%d; N_cache=N_max: E0=%.14g N=%d, |dpsi|=%.3g'
+                        % (N_cache, r['E0'], r['N'], full['E0'], full['N'], np.linalg.norm(r['psi'] - full['psi'])), dict(case, compare_full_cache=True))
+    return res.done()
+
+
 # ---------------------------------------------------------------- evolution (Lanczos and Arnoldi)
 
 def case_evo(case):
     """One solver object, `run` called for every (delta, normalize) of case['calls'] in turn."""
     from tenpy.linalg import krylov_based
-    sp, M, lam, Q, v = context(*[case[k] for k in ('struct', 'form', 'd', 'fam', 'spec', 'bas', 'seed', 'start')])
-    opt = dict(case['opt'])
+    ctx = ctx_of(case)
+    sp, M, v, opt = ctx.sp, ctx.M, ctx.v, dict(case['opt'])
     s = opt.get('E_shift') or 0.0
     lanczos = case['solver'] == 'LanczosEvolution'
-    op, _ = build_operator(sp, M, Q, case['form'], None, case['seed'])
     Ms = M + s * np.eye(len(M))  # documented: with E_shift, approximates expm(delta (H + E_shift)) psi
-    V, betas = krylov_ref(M, v, len(v))
+    V, betas, _ = ctx.reference(M, None)
     dK = V.shape[1]
-    psi0 = sp.vec(v)
-    eng = getattr(krylov_based, case['solver'])(op, psi0, dict(opt))
+    psi0 = ctx.psi0()
+    eng = getattr(krylov_based, case['solver'])(ctx.operator(None)[0], psi0, dict(opt))
     out = []
     for dname, normalize in case['calls']:
         delta = DELTAS[dname]
@@ -279,7 +319,7 @@ def case_evo(case):
             err_exact = np.linalg.norm(p - (exact / np.linalg.norm(exact) if norm_eff else exact)) / (1.0 if norm_eff else np.linalg.norm(exact))
             if norm_eff:
                 chk(abs(np.linalg.norm(p) - 1) <= 1e-10, 'not-normalized', '|psi|=%r' % np.linalg.norm(p))
-            elif np.real(delta) == 0.0 and case['fam'] == 'herm' or np.imag(delta) == 0.0 and case['spec'] == 'antiherm':
+            elif np.real(delta) == 0.0 and case['fam'] == 'herm' or np.imag(delta) == 0.0 and case['spec'] == 'antiherm' and not s:
                 chk(abs(np.linalg.norm(p) - np.linalg.norm(v)) <= 1e-9 * np.linalg.norm(v), 'norm-not-preserved',
                     '|psi_f|=%.12g |psi0|=%.12g for an anti-Hermitian exponent' % (np.linalg.norm(p), np.linalg.norm(v)))
             if opt['N_max'] >= dK:
@@ -301,8 +341,10 @@ def run_evo(unit):
     res = Result()
     lanczos = solver == 'LanczosEvolution'
     bases = (BASES if tier == 'thorough' else ('rot', 'urot')) if fam == 'herm' else (None,)
-    starts = [s for s in (['generic', 'mix0+last', 'e0', 'eig0', 'noground'] if tier == 'quick' else start_names(d)) if s in start_names(d)]
-    calls = [(dn, nz) for dn in (('real', 'imag', 'complex') if tier == 'quick' else DELTAS) for nz in (None, True, False)]
+    starts = [s for s in (['generic', 'mix0+last', 'eig0', 'noground'] if tier == 'quick' else start_names(d)) if s in start_names(d)]
+    calls = [(dn, nz) for dn in DELTAS for nz in (None, True, False)]
+    if tier == 'quick':
+        calls = [('real', None), ('imag', None), ('complex', False), ('imag', False), ('real', True)]
     for bas, start in itertools.product(bases, starts):
         base = dict(kind='evo', solver=solver, struct=struct, form=form, d=d, fam=fam, spec=spec, bas=bas, seed=seed, start=start)
         for N_max, reortho, E_shift in itertools.product(sorted({2, 3, d, d + 3}), (False, True) if lanczos else (False,), (None, -5.0)):
@@ -335,17 +377,16 @@ def run_evo(unit):
 
 def case_arnoldi(case):
     from tenpy.linalg.krylov_based import Arnoldi
-    sp, M, lam, Q, v = context(*[case[k] for k in ('struct', 'form', 'd', 'fam', 'spec', 'bas', 'seed', 'start')])
-    opt = dict(case['opt'])
+    ctx = ctx_of(case)
+    sp, M, opt = ctx.sp, ctx.M, dict(case['opt'])
     s = opt.get('E_shift') or 0.0
     key = sort_key(opt['which'])
-    op, _ = build_operator(sp, M, Q, case['form'], None, case['seed'])
-    V, betas = krylov_ref(M, v, len(v))
+    V, betas, scale = ctx.reference(M, None)
     dK = V.shape[1]
-    scale = 1.0 + np.abs(M).max()
     chk = Checker()
-    psi0 = sp.vec(v)
-    Es, psis, N = Arnoldi(op, psi0, dict(opt)).run()
+    psi0 = ctx.psi0()
+    Es, psis, N = Arnoldi(ctx.operator(None)[0], psi0, dict(opt)).run()
+    chk(np.array_equal(sp.flat(psi0)[0], ctx.v), 'start-vector-modified')
     n = min(N, opt['num_ev'])
     chk(len(psis) == n and len(Es) >= n, 'wrong-number-of-pairs', 'N=%d num_ev=%d: %d values, %d vectors' % (N, opt['num_ev'], len(Es), len(psis)))
     ps = [observe(sp, psi, psi0) for psi in psis]
@@ -427,7 +468,7 @@ def case_gram_schmidt(case):
             basis = np.concatenate([basis, (r / nr)[:, None]], axis=1)
     chk = Checker()
     vecs = [sp.vec(x) for x in vs]
-    out = gram_schmidt(vecs) if rcond is None else gram_schmidt(vecs, rcond=rcond)
+    out = gram_schmidt(vecs, rcond=rcond)
     if ambiguous:
         return [dict(failed=[], kept=len(out))]
     if chk(len(out) == len(keep), 'wrong-number-kept', 'kept %d of %d vectors, documented rule keeps %d' % (len(out), len(vs), len(keep))):
@@ -514,7 +555,7 @@ class FullOp:
 
     def __init__(self, sp, F):
         import tenpy.linalg.np_conserved as npc
-        self.sp, self.F = sp, F
+        self.sp, self.F, self.dtype = sp, F, F.dtype
         lab = ['(a.b.c)', '(a*.b*.c*)'] if sp.struct == 'rank3' else ['p', 'p*']
         self.A = npc.Array.from_ndarray(F, [sp.leg, sp.leg.conj()], labels=lab)
         self.A6 = self.A.split_legs() if sp.struct == 'rank3' else None
@@ -592,6 +633,109 @@ def run_wrappers(unit):
     return res.done()
 
 
+def case_flat(case):
+    """FlatLinearOperator / FlatHermitianOperator / lanczos_arpack against the dense matrix of the same operator."""
+    from tenpy.linalg.krylov_based import lanczos_arpack
+    from tenpy.linalg.sparse import FlatHermitianOperator, FlatLinearOperator
+    d, seed, herm = case['d'], case['seed'], case['hermitian']
+    sp = Space(case['struct'], d)
+    rng = np.random.default_rng([seed, d, 88])
+    M = hermitian('nondeg', 'urot' if case['complex'] else 'rot', d, seed)[0] if herm else general('complex' if case['complex'] else 'real', d, seed)
+    F = sp.full_matrix(M)
+    full = FullOp(sp, F)
+    scale = 1 + np.abs(F).max()
+    chk = Checker()
+    q = {'target': sp.q, 'other': list(sp.others[0]) if sp.others else sp.q, 'all': None, 'default': 0}[case['sector']]
+    qv = np.zeros(len(sp.q), int) if case['sector'] == 'default' else q
+    mask = np.ones(sp.D, bool) if q is None else np.all(sp.qflat == np.array(qv, dtype=sp.qflat.dtype)[np.newaxis, :], axis=1)
+    n = int(mask.sum())
+    R = F[np.ix_(mask, mask)]
+    x0 = rng.standard_normal(n) + (1j * rng.standard_normal(n) if case['complex'] else 0)
+    if case['what'] == 'arpack':
+        psi = sp.vec(x0)
+        E0, psi0 = lanczos_arpack(full, psi, {})
+        p, bad = observe(sp, psi0, psi)
+        if chk(p is not None, 'lanczos_arpack:result-structure', bad):
+            lam = np.linalg.eigvalsh(M)
+            chk(abs(E0 - lam[0]) <= 1e-9 * scale, 'lanczos_arpack:not-ground-energy', 'E0=%.12g lambda_min=%.12g' % (E0, lam[0]))
+            chk(np.linalg.norm(M @ p - E0 * p) <= 1e-7 * scale and abs(np.linalg.norm(p) - 1) <= 1e-10, 'lanczos_arpack:not-ground-state')
+        return [dict(failed=chk.failed)]
+    cls = FlatHermitianOperator if herm else FlatLinearOperator
+    try:
+        if case['pipe']:  # matvec acting on the rank-3 tensors, flat vectors on the combined pipe
+            op, guess = cls.from_guess_with_pipe(full.matvec, sp.vec(x0), dtype=F.dtype, compact_flat=bool(case['compact']))
+            chk(np.allclose(guess, x0, atol=1e-14, rtol=0), 'from_guess_with_pipe:guess_flat-wrong')
+        elif q is None:  # all sectors at once: the vector label has to be given (from_NpcArray has no argument for it)
+            op = cls(full.A.matvec, sp.leg, F.dtype, None, full.A.get_leg_labels()[0], case['compact'])
+        else:
+            op = cls.from_NpcArray(full.A, charge_sector=q, compact_flat=case['compact'])
+    except ValueError:
+        if case['compact'] and (q is None or not sp.leg.is_blocked()):
+            return [dict(failed=[])]  # documented: compact_flat needs a blocked leg and a fixed charge sector
+        raise
+    if not chk(tuple(op.shape) == (n, n), 'shape-wrong', 'shape %s for a sector of dimension %d' % (op.shape, n)):
+        return [dict(failed=chk.failed)]
+    if case['what'] == 'matvec':
+        xs = list(np.eye(n)) + [x0]
+        for x in xs:
+            chk(np.abs(op.matvec(x) - R @ x).max() <= 1e-12 * scale, 'matvec-wrong', 'differs from the dense block')
+            a = op.flat_to_npc(x)
+            dense = a.to_ndarray() if q is not None else a.to_ndarray().sum(axis=1)
+            chk(np.array_equal(dense[mask], x) and not np.any(dense[~mask]), 'flat_to_npc-wrong')
+            chk(np.array_equal(op.npc_to_flat(a), x), 'npc_to_flat-not-inverse')
+        chk(op.matvec_count == len(xs), 'matvec_count-wrong', '%d after %d products' % (op.matvec_count, len(xs)))
+        if q is not None and not case['pipe']:  # documented property: the charge sector can be changed afterwards
+            m2 = np.all(sp.qflat == sp.qflat[-1][np.newaxis, :], axis=1)
+            op.charge_sector = sp.qflat[-1]
+            x = rng.standard_normal(int(m2.sum()))
+            chk(tuple(op.shape) == (m2.sum(), m2.sum()) and np.abs(op.matvec(x) - F[np.ix_(m2, m2)] @ x).max() <= 1e-12 * scale, 'charge_sector-setter-wrong')
+        return [dict(failed=chk.failed)]
+    # eigenvectors
+    which, k = case['which'], min(case['num_ev'], n)
+    eta, ws = op.eigenvectors(num_ev=k, which=which, v0=x0.astype(complex if not herm else x0.dtype))
+    key = sort_key({'LA': 'LR', 'SA': 'SR'}.get(which, which))
+    ref = np.linalg.eigvals(R)
+    ref = ref[np.argsort(key(ref), kind='stable')]
+    tol = 1e-8 * scale
+    if chk(len(eta) == k and len(ws) == k, 'eigenvectors:wrong-number', '%d values %d vectors for num_ev=%d' % (len(eta), len(ws), k)):
+        free = list(ref)
+        for i in range(k):
+            chk(abs(key(eta[i]) - key(ref[i])) <= tol, 'eigenvectors:not-ordered-as-requested', 'which=%s: %r, dense %r' % (which, list(eta), list(ref[:k])))
+            j = int(np.argmin(np.abs(np.array(free) - eta[i])))
+            if chk(abs(free[j] - eta[i]) <= tol, 'eigenvectors:not-an-eigenvalue', repr(eta[i])):
+                free.pop(j)
+            w = ws[i].to_ndarray()
+            chk(w.shape == (sp.D,) and abs(np.linalg.norm(w) - 1) <= 1e-8 and np.linalg.norm(F @ w - eta[i] * w) <= 100 * tol, 'eigenvectors:not-an-eigenvector',
+                'pair %d: |A w - eta w| = %.3g' % (i, np.linalg.norm(F @ w - eta[i] * w) if w.shape == (sp.D,) else -1))
+            if q is not None:
+                chk(np.array_equal(ws[i].qtotal, sp.leg.chinfo.make_valid(qv)) and not np.any(w[~mask]), 'eigenvectors:wrong-sector')
+    return [dict(failed=chk.failed)]
+
+
+def run_flat(unit):
+    _, struct, tier, seed = unit
+    res = Result()
+    for d, cplx, herm in itertools.product(range(1, 7 if tier == 'quick' else 10), (False, True), (False, True)):
+        base = dict(kind='flat', struct=struct, d=d, complex=cplx, hermitian=herm, seed=seed, pipe=False)
+        # all sectors at once (charge_sector=None): only for blocked legs (pipes), as in the library's own use
+        sectors = ('target', 'other', 'default') + (('all',) if struct == 'rank3' else ())
+        cases = [dict(base, what='matvec', sector=s, compact=c) for s in sectors for c in (None, True, False)]
+        cases += [dict(base, what='eig', sector=s, compact=None, which=w, num_ev=k) for s in sectors[::3]
+                  for w in (('LM', 'LA', 'SA') if herm else ('LM', 'LR', 'SR')) for k in sorted({1, 2, d})]
+        if struct == 'rank3':
+            cases += [dict(base, what='matvec', sector='target', compact=c, pipe=True) for c in (True, False)]
+        if herm:
+            cases.append(dict(base, what='arpack', sector='target', compact=None))
+        for case in cases:
+            runs = res.execute(case, case_flat)
+            if runs is None:
+                continue
+            res.nontrivial += 1
+            if runs[0]['failed']:
+                res.bad('FlatLinearOperator:%s:%s%s' % (runs[0]['failed'][0][0], case['sector'], ':compact' if case['compact'] else ''), describe(runs[0]['failed']), case)
+    return res.done()
+
+
 # ---------------------------------------------------------------- plumbing
 
 class Result:
@@ -608,8 +752,10 @@ class Result:
             return fn(case)
         except Exception as e:  # noqa: BLE001
             import traceback
-            tb = traceback.extract_tb(e.__traceback__)[-1]
-            self.bad('%s:exception:%s@%s:%s' % (case.get('solver', case['kind']), type(e).__name__, tb.name, tags(case) if 'opt' in case and 'N_max' in case['opt'] else ''),
+            frames = traceback.extract_tb(e.__traceback__)
+            tb = ([f for f in frames if '/tenpy/' in f.filename] or frames)[-1]  # innermost frame inside tenpy
+            name = case.get('solver') or {'gs': 'LanczosGroundState', 'arnoldi': 'Arnoldi', 'gmres': 'GMRES', 'wrapper': 'sparse', 'flat': 'FlatLinearOperator'}.get(case['kind'], case['kind'])
+            self.bad('%s:exception:%s@%s%s' % (name, type(e).__name__, tb.name, ':' + tags(case) if 'N_max' in case.get('opt', ()) else ''),
                      '%s: %s (%s line %d)' % (type(e).__name__, e, tb.filename.split('/')[-1], tb.lineno), case)
             return None
 
@@ -621,13 +767,13 @@ class Result:
         return dict(evaluations=self.evaluations, nontrivial_count=self.nontrivial, violations=self.violations, samples=self.samples[:1], outcomes=sorted(self.outcomes))
 
 
-RUNNERS = {'gs': run_gs, 'evo': run_evo, 'arnoldi': run_arnoldi, 'gram_schmidt': run_gram_schmidt, 'gmres': run_gmres, 'wrappers': run_wrappers}
-CASES = {'gs': case_gs, 'evo': case_evo, 'arnoldi': case_arnoldi, 'gram_schmidt': case_gram_schmidt, 'gmres': case_gmres, 'wrapper': case_wrapper}
+RUNNERS = {'flat': run_flat, 'gs': run_gs, 'evo': run_evo, 'arnoldi': run_arnoldi, 'gram_schmidt': run_gram_schmidt, 'gmres': run_gmres, 'wrappers': run_wrappers}
+CASES = {'flat': case_flat, 'gs': case_gs, 'evo': case_evo, 'arnoldi': case_arnoldi, 'gram_schmidt': case_gram_schmidt, 'gmres': case_gmres, 'wrapper': case_wrapper}
 FORMS = (('triv', 'array'), ('triv', 'matvec'), ('u1x2', 'array'), ('u1mix', 'array'), ('rank3', 'matvec'))
 
 
 def units(tier, seed, label):
-    dmax = 6 if tier == 'quick' else 10
+    dmax = 6 if tier == 'quick' else 8
     us = []
     for d, spec, (struct, form) in itertools.product(range(1, dmax + 1), HERMITIAN_SPECTRA, FORMS):
         if d == 1 and spec not in ('nondeg', 'zero'):
@@ -636,6 +782,8 @@ def units(tier, seed, label):
     for d, spec, wrap in itertools.product(range(1, dmax + 1), ('nondeg', 'degmin', 'pm'), ['shift', 'sum'] + ['ortho:' + k for k in ORTHO_KINDS]):
         if d > 1 or spec == 'nondeg':
             us.append(('gs', 'rank3' if d % 2 else 'u1x2', 'matvec' if d % 2 else 'array', d, spec, wrap, tier, seed))
+    for d, spec, (struct, form) in itertools.product((30,) if tier == 'quick' else (20, 40, 60), ('nondeg', 'degmin', 'pm'), FORMS[2:]):
+        us.append(('gs', struct, form, d, spec, None, tier, seed))
     for d, (struct, form) in itertools.product(range(1, dmax + 1), FORMS):
         for spec in ('nondeg', 'degmin', 'rank1neg', 'pm') if d > 1 else ('nondeg',):
             us.append(('evo', 'LanczosEvolution', struct, form, d, 'herm', spec, tier, seed))
@@ -648,6 +796,7 @@ def units(tier, seed, label):
     for struct in STRUCTS:
         us.append(('gram_schmidt', struct, tier, seed))
         us.append(('wrappers', struct, tier, seed))
+        us.append(('flat', struct, tier, seed))
     for struct, form in FORMS:
         us.append(('gmres', struct, form, tier, seed))
     return us
